@@ -90,7 +90,7 @@ func (e *env) readSeq() (recs [][]byte, openErr, endErr error) {
 
 func (e *env) write(b []byte) {
 	if err := os.WriteFile(e.path, b, 0o644); err != nil {
-		panic(err)
+		panic(h.Infra{Msg: "harness file operation failed: " + err.Error()})
 	}
 }
 
@@ -110,7 +110,7 @@ func Prop(c Case, x *h.Ctx) *h.Violation {
 	}
 	data, err := os.ReadFile(orig)
 	if err != nil {
-		panic(err)
+		panic(h.Infra{Msg: "harness file operation failed: " + err.Error()})
 	}
 	if uint64(len(data)) != size {
 		return h.V("damage/size", "pristine file has %d bytes, Size() said %d", len(data), size)
@@ -356,7 +356,7 @@ func PropMulti(m Multi, x *h.Ctx) *h.Violation {
 	}
 	data, err := os.ReadFile(orig)
 	if err != nil {
-		panic(err)
+		panic(h.Infra{Msg: "harness file operation failed: " + err.Error()})
 	}
 	ri := m.Record % len(recs)
 	end := size
